@@ -251,6 +251,11 @@ def special_shapes(tier):
         ("dict", ((None, True, ("dict", ((None, False, INT),), False)),), True),
         ("dict", ((0, False, INT), ("", True, STR)), False),
         ("list", ("typed", ("dict", ((None, False, INT),), False)), ()),
+        # an alias of an alias (and of that), at the root and below it
+        ("alias", "Outer", ("alias", "Inner", S("int", ("min", 1)))),
+        ("dict", (("a", False, ("alias", "Outer", ("alias", "Inner", S("int", ("min", 1))))),), False),
+        ("list", ("typed", ("alias", "O3", ("alias", "O2", ("alias", "O1", S("str", ln(1, 2)))))), ()),
+        ("list", ("elems", (INT, ("alias", "Outer", ("alias", "Inner", S("str", ("alphabet", "ab")))))), ()),
         # braces in a str key (format-template characters), alone and as an any alternative
         braces, ("any", (braces, NONE)), ("list", ("elems", (E, braces, E)), ()),
     ]
